@@ -102,6 +102,18 @@ pub fn main(tier: Tier, seed: u64) -> i32 {
             }
         }
     }
+    // output sets given with repeated / unsorted indices (they denote the same set)
+    for n in [2usize, 3] {
+        let feats = feature_circuits(n);
+        let (name, c) = &feats[4];
+        let lists: Vec<Vec<usize>> = if n == 2 { vec![vec![1, 1], vec![0, 0], vec![1, 0]] } else { vec![vec![1, 1, 2], vec![0, 0, 0], vec![2, 1, 2], vec![2, 0], vec![1, 1]] };
+        for p_out in lists {
+            for p_eval in 0..n {
+                let inputs = c.all_inputs()[(p_eval + p_out.len()) % c.all_inputs().len()].clone();
+                cases.push((format!("{name}/n{n}/repeated"), MpcCase { circ: c.clone(), inputs, p_eval, p_out: p_out.clone(), tmp_mask: 0 }));
+            }
+        }
+    }
     let results = par_map(&cases, |w, i, (_, case)| {
         let r = run_case(case, mix(seed, i as u64), w);
         (check_honest(case, &r), monitor(case, &r))
